@@ -713,7 +713,7 @@ def periodic_bg(ops, bytes8):
 class State:
     def __init__(self, ops, x, pc, mem, legal=True, system=False):
         self.ops = ops
-        self.x = list(x)
+        self.x = x if type(x) is RegArray else list(x)
         self.pc = pc
         self.mem = mem
         self.legal = legal      # the stepped word was a modelled instruction
@@ -721,24 +721,61 @@ class State:
 
 
 def make_state(x, pc, mem=None, membytes=None):
-    """x: 32 values (x[0] ignored); ints -> PY state, anything symbolic -> Z3 state"""
-    allv = list(x[1:]) + [pc] + (list(membytes) if membytes is not None else [])
-    ops = PYOPS if all(type(v) is int for v in allv) and not type(mem) is ArrayMemory else Z3OPS
-    xs = [ops.val(0)] + [ops.val(v) for v in x[1:]]
+    """x: 32 values (x[0] ignored) or a RegArray; ints -> PY state, anything symbolic -> Z3 state"""
+    if type(x) is RegArray:
+        ops, xs = Z3OPS, x
+    else:
+        allv = list(x[1:]) + [pc] + (list(membytes) if membytes is not None else [])
+        ops = PYOPS if all(type(v) is int for v in allv) and not type(mem) is ArrayMemory else Z3OPS
+        xs = [ops.val(0)] + [ops.val(v) for v in x[1:]]
     if mem is None:
         mem = LogMemory(ops, periodic_bg(ops, membytes if membytes is not None else [0] * 8))
     return State(ops, xs, ops.val(pc), mem)
 
 
+class RegArray:
+    """z3 register file given by a read function on 5-bit indices; index 0 reads as zero and is never
+    written.  RegArray(arr): backed by a z3 Array(BitVec 5 -> BitVec 32); RegArray(fn=...): any function."""
+
+    def __init__(self, arr=None, fn=None):
+        self.arr = arr
+        self.fn = fn if fn is not None else (lambda i: z3.Select(arr, i))
+
+    @staticmethod
+    def idx5(idx):
+        if type(idx) in (int, bool):
+            return z3.BitVecVal(idx & 31, 5)
+        return z3.simplify(z3.Extract(4, 0, idx) if idx.size() > 5 else idx)
+
+    def read(self, idx):
+        i = self.idx5(idx)
+        return z3.If(i == 0, z3.BitVecVal(0, 32), self.fn(i))
+
+    def write(self, idx, val, en):
+        i = self.idx5(idx)
+        old = self.fn
+        cond = z3.And(_zb(en), i != 0)
+        return RegArray(fn=lambda j: z3.If(z3.And(cond, j == i), val, old(j)))
+
+
 def _xr(st, idx):
     o = st.ops
-    c = o.conc(idx) if idx is not None else 0
+    if idx is None:
+        idx = 0
+    if type(st.x) is RegArray:
+        return st.x.read(o.val(idx))
+    c = o.conc(idx)
     if c is not None:
         return st.x[c & 31]
     v = st.x[0]
     for i in range(1, 32):
         v = o.ite(o.eq(idx, o.val(i)), st.x[i], v)
     return v
+
+
+def read_reg(st, idx):
+    """value of x[idx] in state st (idx: int or a value of the state's domain)"""
+    return _xr(st, idx)
 
 
 class _Eff:
@@ -890,9 +927,12 @@ def step(st, word, ilen=None):
             sts[i][0] = o.or_(sts[i][0], c) if o.sym else (sts[i][0] or c)
             sts[i][1] = o.ite(c, a, sts[i][1])
             sts[i][2] = o.ite(c, b, sts[i][2])
-    x = list(st.x)
+    if type(st.x) is RegArray:
+        x = st.x.write(rdm, val, wr)
+    else:
+        x = list(st.x)
     rc = o.conc(rdm)
-    for i in range(1, 32):
+    for i in (range(1, 32) if type(x) is list else ()):
         if rc is not None:
             if rc == i:
                 x[i] = o.ite(wr, val, st.x[i])
@@ -1100,6 +1140,13 @@ def selftest(repo=None, verbose=False):
         want = s1.x + [s1.pc, s1.mem.load_byte(probe)]
         assert got == want, (hex(wv), decode(wv).mnemonic)
         assert bool(s1.legal) == z3.is_true(z3.simplify(_zb(s2.legal))), hex(wv)
+        arr = z3.K(z3.BitVecSort(5), z3.BitVecVal(0, 32))
+        for k in range(1, 32):
+            arr = z3.Store(arr, z3.BitVecVal(k, 5), z3.BitVecVal(x[k], 32))
+        s3 = step(make_state(RegArray(arr), z3.BitVecVal(pc, 32), membytes=[z3.BitVecVal(b, 8) for b in mb]),
+                  z3.BitVecVal(wv, 32))
+        got3 = [z3.simplify(read_reg(s3, k)).as_long() for k in range(32)] + [z3.simplify(s3.pc).as_long()]
+        assert got3 == s1.x + [s1.pc], (hex(wv), "register-array back end")
         stats["step_cross"] += 1
     return stats
 
